@@ -138,6 +138,20 @@ def main(argv=None):
         if drv_fail:
             status = "violation"
 
+    # thorough tier: self-test of the contracts against the committed semantic mutants of this property
+    mut = None
+    if tier == "thorough" and not os.environ.get("VF_NO_MUTANTS") and os.environ.get("VF_REPO") is None:
+        try:
+            import io
+            import contextlib
+            from . import mutants as vmut
+            buf = io.StringIO()
+            with contextlib.redirect_stdout(buf):
+                mres = vmut.run([pid], jobs=4)
+            mut = {"total": len(mres), "killed": sum(1 for x in mres if x["result"] == "killed"),
+                   "not_killed": [x for x in mres if x["result"] != "killed"]}
+        except Exception as e:  # never let the self-test change the verdict
+            mut = {"error": repr(e)}
     level = cfg.get("level", "proof")
     coverage = {
         "obligations": obligations,
@@ -162,6 +176,7 @@ def main(argv=None):
             "status": drv.get("status"), "summary": drv.get("summary", ""), "cmd": drv.get("cmd", ""),
             "seconds": drv.get("seconds"), "failing": drv.get("failing", []), "detail": drv.get("detail", "")[:600]}] if drv and drv.get("status") != "none" else []),
         "unverified_surroundings": cfg.get("unverified_surroundings", []),
+        "mutant_self_test": mut if mut is not None else "thorough tier only",
         "known_findings": ["%s: %s" % (k["obligation"], k["what"]) for k, _ in known_hit],
         "undecided": undecided,
         "failures_outside_this_property": unrelated,
